@@ -224,7 +224,7 @@ func (m *spaceMon) onAck(rs [][2]int64 /* (Smallest, Largest), as in the frame *
 			m.fail("recvph/ack-malformed", fmt.Sprintf("%s: ACK ranges %v, %v not descending/disjoint/non-adjacent", m.name, rs[i-1], r))
 		}
 	}
-	if !wire.VerifValidateAckRanges(rs) {
+	if !wire.VerifRPHValidateAckRanges(rs) {
 		m.fail("recvph/ack-invalid", fmt.Sprintf("%s: generated ACK %v is rejected by AckFrame.validateAckRanges", m.name, rs))
 	}
 	acked := numSet(rs)
@@ -1126,7 +1126,7 @@ func emitValidCases(w *bufio.Writer, r *u.Rng, st *rphStats, n int) int {
 					fmt.Fprintf(w, "MONFAIL\trecvph/panic\tpanic in validateAckRanges/AcksPacket: %v\t%v\n", e, rs)
 				}
 			}()
-			valid = wire.VerifValidateAckRanges(rs)
+			valid = wire.VerifRPHValidateAckRanges(rs)
 			want := len(rs) > 0
 			for j, x := range rs {
 				if x[0] > x[1] || (j > 0 && !(rs[j-1][0] > x[1]+1)) {
